@@ -14,7 +14,7 @@ EN_FLOW, EN_STATUS, EN_SETTING = 8, 11, 12
 
 
 class Direct(object):
-    __slots__ = ('times', 'node', 'link', 'warn', 'halted', 'all_times', 'tank_inflow', 'tank_head')
+    __slots__ = ('times', 'node', 'link', 'warn', 'halted', 'all_times', 'tank_inflow', 'tank_head', 'open_all')
 
 
 def run(text, units, spec, prefix='c03T'):
@@ -39,6 +39,7 @@ def run(text, units, spec, prefix='c03T'):
     tanks = [t['name'] for t in spec['tanks']]
     tank_q = {t: [] for t in tanks}
     tank_h = {t: [] for t in tanks}
+    open_all = []
     try:
         nidx = [en.ENgetnodeindex(n) for n in nodes]
         tidx = [en.ENgetnodeindex(n) for n in tanks]
@@ -48,6 +49,7 @@ def run(text, units, spec, prefix='c03T'):
         while True:
             t = int(en.ENrunH())
             all_times.append(t)
+            open_all.append(tuple(1 if en.ENgetlinkvalue(i, EN_STATUS) >= 1 else 0 for i in lidx))
             for n, i in zip(tanks, tidx):
                 tank_q[n].append(en.ENgetnodevalue(i, EN_DEMAND) * f['flow'])
                 tank_h[n].append(en.ENgetnodevalue(i, EN_HEAD) * f['len'])
@@ -80,6 +82,7 @@ def run(text, units, spec, prefix='c03T'):
     out.all_times = all_times
     out.tank_inflow = tank_q    # net inflow of every tank at every solved instant (all_times), m3/s
     out.tank_head = tank_h      # head of every tank at every solved instant, m
+    out.open_all = open_all     # open(1)/closed(0) of every link (order of spec links) at every solved instant
     out.node = {k: {n: np.array([r[i] for r in v], dtype=float) for i, n in enumerate(nodes)} for k, v in rows_n.items()}
     out.link = {k: {l: np.array([r[i] for r in v], dtype=float) for i, l in enumerate(links)} for k, v in rows_l.items()}
     out.warn = list(en.errcodelist)
